@@ -1,6 +1,6 @@
 (* one case per line:   <kind> <fixed 0|1> <progs> <schedule>
      progs    = thread programs separated by ';', ops separated by ',', op = letter:arg:arg
-                n:dst  p:dst:p  a:src:dst  r:src  w:src:wdst  u:w:dst  c:src:recv  f:p:src  v:src  s:a:b
+                n:dst  p:dst:p  a:src:dst  r:src  w:src:wdst  u:w:dst  c:src:recv  f:p:src  v:src  s:a:b  t:src (State)
      schedule = comma separated thread ids ("-" = empty): the step sequence the harness drove
                 the implementation through
    output:  <status> E:<events> R:<results per thread> H:<refs.calls.done.shut per hook> M:<enabled mask per step + final>
@@ -23,6 +23,7 @@ let parse_op (s : string) : op =
   | ["f"; p; a] -> OFulfill (n (int_of_string p), n (int_of_string a))
   | ["v"; a] -> OIsValid (n (int_of_string a))
   | ["s"; a; b] -> OIsSame (n (int_of_string a), n (int_of_string b))
+  | ["t"; a] -> OState (n (int_of_string a))
   | _ -> failwith ("bad op " ^ s)
 
 let parse_prog s = if s = "-" then [] else List.map parse_op (String.split_on_char ',' s)
